@@ -94,6 +94,11 @@ theorem C03_result_map :
        ("primal infeasibility", "pres"), ("dual infeasibility", "dres"), ("primal slack", "-ts"),
        ("dual slack", "-tz"), ("iterations", "iters")] := by decide
 
+/-- the residuals of `coneqp` are normalised by `max(1, ‖q‖)`, `max(1, ‖b‖)` and `max(1, ‖h‖)` with the cone norm of `h` -/
+theorem C03_normalisers (E : Env K X Y Z) (q : X) (b : Y) (h : Z) :
+    coneqp.resx0Def E q b h = max 1 (E.nX q) ∧ coneqp.resy0Def E q b h = max 1 (E.nY b) ∧ coneqp.resz0Def E q b h = max 1 (E.nZ h) :=
+  ⟨rfl, rfl, rfl⟩
+
 /-- no rescaling precedes the return: only the symmetrisation of the 's' blocks -/
 theorem C03_epilogue_map :
     (coneqp.returns[1]?).map (·.2) = some [("symm", "s", "order m over dims['s'] from dims['l'] + sum(dims['q']) step m ** 2"), ("symm", "z", "order m over dims['s'] from dims['l'] + sum(dims['q']) step m ** 2")] := by decide
